@@ -5,7 +5,7 @@ from .common import both
 
 ID = 'C03'
 TARGETS = ['theories/Properties/C03.vo']
-THEOREMS = ['C03_fields', 'C03_no_other_fields', 'C03_since_is_lex', 'C03_total']
+THEOREMS = core.theorems_of(ID)
 LEVEL = ('the per-struct reader tables are regenerated from src/frame/mutable.rs on every run; proved for all versions and payloads: a field '
          'is exposed iff version >= its spec since-version and then equals the big-endian bytes at its spec offset; the closed obligation '
          '"regenerated table = Layout/Spec.v" is re-checked by the kernel; the real columns are compared with the spec offsets on generated replays')
@@ -116,7 +116,8 @@ def run(ctx):
         cid = 'v%d_%d_%d_%d' % (v + (i,))
         cases.append((cid, [b.hex(), '-', '-', '-']))
         reps[cid] = (r, b)
-    impl, model = both(ctx, 'read', cases, corr, parallel=8) if MODEL_READ else (core.run_parallel(R.run_pvh, 'read', cases, n=8), {})
+    from .readerlib import both_modes
+    impl, model = both_modes(ctx, 'read', cases, corr, parallel=8) if MODEL_READ else (core.run_parallel(R.run_pvh, 'read', cases, n=8), {})
     for cid, f in cases:
         r, b = reps[cid]
         corr.seen(b)
@@ -134,4 +135,4 @@ def run(ctx):
 
 
 # switched on when the reader model (Model/Reader.v) is part of the extracted API
-MODEL_READ = False
+MODEL_READ = True
